@@ -95,6 +95,21 @@ def _patch_ret(case, failure):
         if isinstance(x, Lm.Unit) and x.kind == "call" and x.sym in case.label_block \
                 and case.blocks[case.label_block[x.sym][0]].func == f:
             return True
+    # another edit of the same rewrite changes the calls into the host function (removes one, or inserts one):
+    # the snapshot is taken before or after that edit, and stale return edges of the original returns are copied
+    Lm.Expected(case)  # marks deleted units
+    for b in case.blocks:
+        for u in b.units:
+            if u.deleted and u.kind == "call" and u.sym in case.label_block and case.blocks[case.label_block[u.sym][0]].func == f:
+                return True
+    for o in case.edits:
+        if o is ed or o.op == "delete":
+            continue
+        oitems, _ = case.patch_units(o)
+        for x in oitems:
+            if isinstance(x, Lm.Unit) and x.kind == "call" and x.sym in case.label_block \
+                    and case.blocks[case.label_block[x.sym][0]].func == f:
+                return True
     has_ret = any(b.func == f and b.units[-1].kind == "ret" for b in case.blocks if b.code)
     has_caller = False
     for b in case.blocks:
@@ -135,7 +150,9 @@ def _stale_returns(case, failure):
         calls_f = any(u.kind == "call" and u.sym in case.label_block
                       and case.blocks[case.label_block[u.sym][0]].func == host.func for u in removed)
         items, _ = case.patch_units(ed)
-        if calls_f and any(isinstance(x, Lm.Unit) and x.kind == "ret" for x in items):
+        if calls_f and any(isinstance(x, Lm.Unit) and (x.kind == "ret" or (
+                x.kind == "call" and x.sym in case.label_block
+                and case.blocks[case.label_block[x.sym][0]].func == host.func)) for x in items):
             return True
     # (iv) a removed direct call whose target label had slid onto the following block because the block that
     #      carried it was deleted as a whole (without retarget_to_proxy): the callee is looked up through the
